@@ -103,6 +103,10 @@ def gen_case(rng, cid, families=None, kinds=('mh', 'pt'), allow_saveload=True,
             name = 'p%d' % pi
             pi += 1
             dom = F.domain_for(kind, rng, j)
+            if kind == 'sphere':
+                # (radec, degs): the angle conventions of the solid-angle proposal, fixed per proposal
+                frng = random.Random((c.seed << 4) ^ (pi - j))
+                dom = (frng.random() < 0.5, frng.random() < 0.4)
             c.params.append((name, kind if kind != 'sphere' else ('sphere%d' % j), dom))
             names.append(name)
         kw = {'window': rng.choice(window_choices) if window_choices else rng.randint(3, 9),
